@@ -59,7 +59,9 @@ class FnReport:
         self.solver_time = 0.0
         self.wall = 0.0
         self.exits = {"return": 0, "raise": 0}
+        self.covered = {}
         self.raised_classes = set()
+        self.body_shas = set()
         self.schema = None
 
     def add(self, ob: Obligation):
@@ -158,6 +160,7 @@ class FunctionVerifier:
     def run_path(self, st: State, rep: FnReport):
         c = self.c
         ip = ContractInterp(self.repo, self.db, st, self.lib)
+        ip.body_shas = rep.body_shas
         ip.current_contract = c
         ip.verified_finfo = self.finfo
         ip.harness_mode = c.harness_src is not None
@@ -275,6 +278,17 @@ class FunctionVerifier:
                 ip.check(f"ensures:{name}", t, where=expr)
             self.check_effects(ip, c.effects, env, old, "effects", c)
             self.check_frame(ip, c.modifies, env, old)
+            for cname, cexpr in c.covers.items():
+                if rep.covered.get(cname) == "sat":
+                    continue
+                try:
+                    r = st._check(ip.spec_bool(cexpr, env, old))
+                except (PyRaise, Unsupported):
+                    r = "unsat"
+                if r == "sat" or (r == "unknown" and rep.covered.get(cname) != "sat"):
+                    rep.covered[cname] = r
+                else:
+                    rep.covered.setdefault(cname, "unsat")
         else:
             rep.exits["raise"] += 1
             rep.raised_classes.add(raised.cls)
